@@ -368,26 +368,43 @@ def check(model, rep):
     if ao is None:
         raise AnalysisError('anchor vanished: RRTStar.addObstruction')
     Lp, Rp = ao.params[1], ao.params[2]
-    apps = [c for c in ast.walk(ao.node) if isinstance(c, ast.Call) and isinstance(c.func, ast.Attribute) and c.func.attr == 'append'
+    from ..engine.inline import Inliner, norm_text as _nt15
+    from ..engine import peval as _pe15
+    from ..engine.paths import paths_of as _paths15
+    ao_flat = _pe15.flatten({n_: f_.node for n_, f_ in cls.methods.items()}, ao.node, depth=2, impure=True)
+    apps = [c for c in ast.walk(ao_flat) if isinstance(c, ast.Call) and isinstance(c.func, ast.Attribute) and c.func.attr == 'append'
             and src(c.func.value) == 'self.obstructions']
     ok = False
-    msg = 'addObstruction does not append [tm(min corner), tm(max corner)]'
-    from ..engine.inline import Inliner
-    il_ao = Inliner(ao)
+    msg = 'addObstruction does not append [tm(corner), tm(opposite corner)] of the box it is given'
+    il_ao = Inliner(ao, node=ao_flat)
     pair = il_ao.expand(apps[0].args[0]) if (len(apps) == 1 and apps[0].args) else None      # corners may be named temporaries
     if pair is not None and isinstance(pair, (ast.List, ast.Tuple)) and len(pair.elts) == 2:
-        ok = True
-        for which, (el, p) in enumerate(zip(pair.elts, (Lp, Rp))):
+        lits = []
+        for el in pair.elts:
             lit = None
             for n in ast.walk(el):
                 if isinstance(n, ast.List) and len(n.elts) >= 3:
                     lit = n
                     break
-            if lit is None:
-                ok = False
-                break
+            lits.append(lit)
+        if all(l_ is not None for l_ in lits):
+            ok = True
             for k in range(3):
-                if src(lit.elts[k]) != '%s[%d]' % (p, k):
+                got = {_nt15(_pe15._fold(il_ao.expand(lits[0].elts[k]))), _nt15(_pe15._fold(il_ao.expand(lits[1].elts[k])))}
+                raw = {'%s[%d]' % (Lp, k), '%s[%d]' % (Rp, k)}
+                r0, r1 = sorted(raw)
+                mm = [{'min(%s,%s)' % xy, 'max(%s,%s)' % uv} for xy in ((r0, r1), (r1, r0)) for uv in ((r0, r1), (r1, r0))]
+                # the test only uses the midpoint and the absolute half extents: which corner holds which end of an axis is immaterial
+                if got != raw and got not in mm:
                     ok = False
-                    msg = 'corner %d component %d is %s, expected %s[%d]' % (which, k, src(lit.elts[k]), p, k)
+                    msg = 'along axis %d the stored corners hold %s; expected the two ends %s of the given box (in either order, or as min / max)' % (k, sorted(got), sorted(raw))
     rep.ob('R15.3', ao, 'self.obstructions.append([corner(%s), corner(%s)])' % (Lp, Rp), ok, msg)
+    # ... and every box handed in is stored: exactly one append on every path through addObstruction
+    counts = []
+    for pth in _paths15(ao_flat, ao.params):
+        n_app = len(pth.calls(lambda t: t == 'self.obstructions.append'))
+        counts.append((n_app, sorted(pth.facts.items())[:2]))
+    bad_paths = [c_ for c_ in counts if c_[0] != 1]
+    rep.ob('R15.3', ao, 'every registered box is stored (one append on every path)', bool(counts) and not bad_paths,
+           'a path through addObstruction stores %s boxes (conditions %s): a box the caller registered is not part of the set the test runs over'
+           % ((bad_paths[0][0], bad_paths[0][1]) if bad_paths else ('?', '?')))
